@@ -3,6 +3,8 @@ package h
 import (
 	"fmt"
 	"runtime"
+
+	"github.com/mlange-42/arche/ecs"
 	"runtime/debug"
 	"sync/atomic"
 )
@@ -41,6 +43,45 @@ func caseC13(c *Ctx) {
 	// world A: the reference run generates the op list
 	a := NewSess(cfg, Opts{Events: true, Track: true})
 	g := NewGen(c.R, a, p)
+	if c.Case%4 == 2 {
+		// a relation node with more tables than one storage page, most of them retired again: wherever the
+		// library keeps tables in a hash map, its iteration order must not leak into results
+		if rels := g.relsUsed(); len(rels) > 0 {
+			rel := Pick(c.R, rels)
+			ids := append(g.subsetAny(g.nonRels(), 2), rel)
+			k := 34 + c.R.Intn(40)
+			p.MaxEnts = 3*k + 40
+			parents, kids := []ecs.Entity{}, map[ecs.Entity][]ecs.Entity{}
+			for i := 0; i < k && !a.Failed(); i++ {
+				if out := a.Do(&Op{K: "NewEntity", Add: g.subsetAny(g.nonRels(), 1)}); len(out.Ents) == 1 {
+					parents = append(parents, out.Ents[0])
+				}
+			}
+			for _, pe := range parents {
+				for j := 0; j < 1+c.R.Intn(2) && !a.Failed(); j++ {
+					if out := a.Do(&Op{K: "BuilderNew", Add: ids, Rel: ip(rel), T: entP(pe)}); len(out.Ents) == 1 {
+						kids[pe] = append(kids[pe], out.Ents[0])
+					}
+				}
+			}
+			// retire 55-90 % of the tables: children first, then the target
+			Shuffle(c.R, parents)
+			for _, pe := range parents[:len(parents)*(55+c.R.Intn(35))/100] {
+				for _, kid := range kids[pe] {
+					if _, ok := a.M.Alive[kid]; ok && !a.Failed() {
+						a.Do(&Op{K: "RemoveEntity", E: entP(kid)})
+					}
+				}
+				if _, ok := a.M.Alive[pe]; ok && !a.Failed() {
+					a.Do(&Op{K: "RemoveEntity", E: entP(pe)})
+				}
+			}
+			a.Cov.N["many_targets_mostly_retired"]++
+			p.Steps = 80
+			p.Scale(3, "CacheRegister", "BatchRemoveEntities", "BatchExchange", "BatchAdd", "BatchRemove", "BatchSetRel", "QueryCheck")
+			g = NewGen(c.R, a, p)
+		}
+	}
 	for i := 0; i < p.Steps && !a.Failed(); i++ {
 		a.Do(g.Next())
 	}
